@@ -500,112 +500,92 @@ def r3_atoms(ctx):
     yield Ob('validation:is_valid_time slices tile HHMMSS', not extra, ctx.floc(fn),
              '' if not extra else 'range test on unexpected slice(s) %s' % extra)
     # ---- date
-    fn = ctx.func('validation', 'is_valid_date')
-    binds = {}
-    for n in ast.walk(fn):
-        if isinstance(n, ast.Assign) and isinstance(n.targets[0], ast.Name) and isinstance(n.value, ast.Call) \
-                and A.call_target(n.value) == (None, 'int') and isinstance(n.value.args[0], ast.Subscript) \
-                and isinstance(n.value.args[0].slice, ast.Slice) and path_of(n.value.args[0].value) == 'val':
-            s = n.value.args[0].slice
-            binds[n.targets[0].id] = (A.const(s.lower) if s.lower is not None else 0, A.const(s.upper))
-    wantb = {'year': (0, 4), 'month': (4, 6), 'day': (6, 8)}
-    inv = {v: k for k, v in binds.items()}
-    names = {}
-    for fld, sl in wantb.items():
-        ok = sl in inv
-        names[fld] = inv.get(sl)
-        yield Ob('validation:is_valid_date %s = int(val[%d:%d])' % (fld, sl[0], sl[1]), ok, ctx.floc(fn),
-                 '' if ok else 'no field is read from val[%d:%d] (found %s)' % (sl[0], sl[1], binds))
-    if None in names.values():
+    for ob in _date_rule(ctx):
+        yield ob
+
+
+def _date_rule(ctx):
+    """The three fields are named wherever they are read (`int(val[0:4])` -> year ...), then the region of the CFG
+    that tests them is explored by constant propagation from (year, month, day): a test that is closed under these
+    is decided, any other test ends the region.  The shape of the code (locals, helper functions, if-chains or tables
+    of constants) does not matter, only which triples reach a rejecting exit."""
+    from ..absint import explore
+    from ..cfg import CFG
+    fn0 = ctx.func('validation', 'is_valid_date')
+    wantb = {(0, 4): 'year', (4, 6): 'month', (6, 8): 'day'}
+    table = {}
+    seen = {}
+    for n in ast.walk(fn0):
+        if isinstance(n, ast.Call) and A.call_target(n) == (None, 'int') and n.args and isinstance(n.args[0], ast.Subscript) \
+                and isinstance(n.args[0].slice, ast.Slice) and path_of(n.args[0].value) == 'val':
+            sl = n.args[0].slice
+            lo = A.const(sl.lower) if sl.lower is not None else 0
+            hi = A.const(sl.upper)
+            seen[(lo, hi)] = n
+            if (lo, hi) in wantb:
+                table[ast.unparse(n)] = wantb[(lo, hi)]
+    for sl, fld in sorted(wantb.items()):
+        ok = sl in seen
+        yield Ob('validation:is_valid_date %s = int(val[%d:%d])' % (fld, sl[0], sl[1]), ok, ctx.floc(fn0),
+                 '' if ok else 'no field is read from val[%d:%d] (found %s)' % (sl[0], sl[1], sorted(seen)))
+    if not all(sl in seen for sl in wantb):
         return
-    Y, M, Dn = names['year'], names['month'], names['day']
-    # time part
-    tcalls = [c for c in A.calls_in(fn) if A.call_target(c) == (None, 'is_valid_time')]
+    tcalls = [c for c in A.calls_in(fn0) if A.call_target(c) == (None, 'is_valid_time')]
     ok = len(tcalls) == 1 and norm(tcalls[0].args[0]) == 'val[8:12]'
-    yield Ob('validation:is_valid_date time part is val[8:12]', ok, ctx.floc(fn),
+    yield Ob('validation:is_valid_date time part is val[8:12]', ok, ctx.floc(fn0),
              '' if ok else 'time part passed is %s' % [norm(c) for c in tcalls])
-    # atoms over a single field
-    tests = []
-    for n in ast.walk(fn):
-        if isinstance(n, ast.If):
-            fp = A.free_paths(n.test)
-            tests.append((n, fp))
-    # year atom
-    ya = [n for n, fp in tests if fp == {Y} and _leads_to_reject_if(n)]
-    rej = set()
-    for n in ya:
-        for y in range(0, 10000):
-            if A.ev(n.test, {Y: y}):
-                rej.add(y)
+    fn = A.abstract(fn0, table)
+    g = CFG(fn)
+    FLD = {'year', 'month', 'day'}
+    mention = [nd for nd in g.nodes if nd.ast is not None and any(isinstance(x, ast.Name) and x.id in FLD and isinstance(x.ctx, ast.Load)
+                                                                   for x in g.walk_exprs(nd))]
+    if not mention:
+        raise AnalysisError('is_valid_date: no statement uses the date fields')
+    start = min(mention, key=lambda nd: nd.id)
+    dom = g.dominators()
+    if not all(start.id in dom.get(nd.id, ()) for nd in mention):
+        raise AnalysisError('is_valid_date: the statements that use the date fields have no common entry')
+    # the century prefix is applied before the fields are read
+    rejecting = {nd.id for nd in g.nodes if nd.kind == 'raise' or (nd.kind == 'return' and A.const(nd.ast.value) is False)}
+    funcs = {'int': int, 'len': len}
+    cnt = [0]
+
+    def rejected(y, m, d):
+        cnt[0] += 1
+        try:
+            vis = explore(g, {'year': y, 'month': m, 'day': d}, funcs=funcs, start=start, unknown='stop')
+        except RuntimeError as e:
+            raise AnalysisError('is_valid_date: %s' % e)
+        return bool(vis & rejecting)
+
+    where = ctx.floc(fn0, start.stmt if start.stmt is not None else fn0)
+    rej = {y for y in range(0, 10000) if rejected(y, 1, 1)}
     ok = rej == set(range(0, 1800))
-    yield Ob('validation:is_valid_date year >= 1800', ok, ctx.floc(fn, ya[0] if ya else fn),
-             '' if ok else 'year test rejects %s..%s, the property says not before 1800'
-             % (min(rej) if rej else '-', max(rej) if rej else '-'), detail={'evaluated': 10000 * len(ya)})
-    # month atom
-    ma = [n for n, fp in tests if fp == {M} and _leads_to_reject_if(n)]
-    rej = set()
-    for n in ma:
-        for mth in range(0, 100):
-            if A.ev(n.test, {M: mth}):
-                rej.add(mth)
+    yield Ob('validation:is_valid_date year >= 1800', ok, where,
+             '' if ok else 'year test rejects %s, the property says not before 1800' % _rng(rej), detail={'evaluated': 10000})
+    rej = {m for m in range(0, 100) if rejected(2001, m, 1)}
     wantrej = set(range(0, 100)) - set(range(1, 13))
     ok = rej == wantrej
-    yield Ob('validation:is_valid_date month in 1..12', ok, ctx.floc(fn, ma[0] if ma else fn),
-             '' if ok else 'month test treats %s wrongly' % sorted(rej ^ wantrej)[:4])
-    # month-length classes
-    chain = None
-    for n, fp in tests:
-        if fp == {M} and not _leads_to_reject_if(n) and isinstance(n.test, ast.Compare) and isinstance(n.test.ops[0], ast.In):
-            chain = n
-            break
-    if chain is None:
-        raise AnalysisError('is_valid_date: month-length dispatch (`month in (...)`) not recognised')
-    arms = []
-    cur = chain
-    while True:
-        arms.append((cur.test, cur.body))
-        if len(cur.orelse) == 1 and isinstance(cur.orelse[0], ast.If) and A.free_paths(cur.orelse[0].test) == {M}:
-            cur = cur.orelse[0]
-        else:
-            arms.append((None, cur.orelse))
-            break
-    CAL = {1: 31, 2: None, 3: 31, 4: 30, 5: 31, 6: 30, 7: 31, 8: 31, 9: 30, 10: 31, 11: 30, 12: 31}
+    yield Ob('validation:is_valid_date month in 1..12', ok, where,
+             '' if ok else 'month test treats %s wrongly' % sorted(rej ^ wantrej)[:4], detail={'evaluated': 100})
+    CAL = {1: 31, 2: 28, 3: 31, 4: 30, 5: 31, 6: 30, 7: 31, 8: 31, 9: 30, 10: 31, 11: 30, 12: 31}
     for mth in range(1, 13):
-        body = None
-        for t, b in arms:
-            if t is None or A.ev(t, {M: mth}):
-                body = b
-                break
         key = 'validation:is_valid_date month %02d day bounds' % mth
-        if not body:
-            yield Ob(key, False, ctx.floc(fn, chain), 'no day test applies to month %d' % mth)
-            continue
-        if mth != 2:
-            acc = _accepted_days(body, Dn, {})
-            want_days = set(range(1, CAL[mth] + 1))
-            ok = acc == want_days
-            yield Ob(key, ok, ctx.floc(fn, body[0]),
-                     '' if ok else 'accepts days %s, calendar says 1..%d' % (_rng(acc), CAL[mth]))
-        else:
-            # February: a test on the year alone selects 29 or 28
-            yt = [s for s in body if isinstance(s, ast.If) and A.free_paths(s.test) == {Y}]
-            if len(yt) != 1:
-                raise AnalysisError('is_valid_date: leap-year test not recognised in the February arm')
-            leap_if = yt[0]
-            acc_leap = _accepted_days(leap_if.body, Dn, {})
-            acc_common = _accepted_days(leap_if.orelse, Dn, {})
-            ok = acc_leap == set(range(1, 30)) and acc_common == set(range(1, 29))
-            yield Ob(key, ok, ctx.floc(fn, leap_if),
-                     '' if ok else 'leap branch accepts %s, common branch accepts %s' % (_rng(acc_leap), _rng(acc_common)))
-            bad = []
-            for y in range(1800, 10000):
-                got = bool(A.ev(leap_if.test, {Y: y}))
-                want_leap = (y % 4 == 0 and y % 100 != 0) or y % 400 == 0
-                if got != want_leap:
-                    bad.append(y)
-            yield Ob('validation:is_valid_date leap-year rule', not bad, ctx.floc(fn, leap_if),
-                     '' if not bad else 'year %d is treated as %s' % (bad[0], 'leap' if bad[0] % 4 or (bad[0] % 100 == 0 and bad[0] % 400) else 'common'),
-                     detail={'evaluated': 8200, 'expression': norm(leap_if.test)})
+        msgs = []
+        for y in (2001, 2004, 1900, 2000):
+            nd = CAL[mth] + (1 if mth == 2 and ((y % 4 == 0 and y % 100 != 0) or y % 400 == 0) else 0)
+            acc = {d for d in range(0, 100) if not rejected(y, mth, d)}
+            if acc != set(range(1, nd + 1)):
+                msgs.append('year %d: accepts days %s, calendar says 1..%d' % (y, _rng(acc), nd))
+        yield Ob(key, not msgs, where, '; '.join(msgs[:2]), detail={'evaluated': 400})
+    bad = []
+    for y in range(1800, 10000):
+        want_leap = (y % 4 == 0 and y % 100 != 0) or y % 400 == 0
+        if (not rejected(y, 2, 29)) != want_leap:
+            bad.append(y)
+    yield Ob('validation:is_valid_date leap-year rule', not bad, where,
+             '' if not bad else 'year %d is treated as %s' % (bad[0], 'common' if ((bad[0] % 4 == 0 and bad[0] % 100 != 0) or bad[0] % 400 == 0) else 'leap'),
+             detail={'evaluated': 8200})
 
 
 def _rng(s):
